@@ -114,13 +114,28 @@ class DecoSys:
             for d_ in (self.en, self.ex, self.gen, self.exit_saw):
                 d_.pop(0, None)
 
-        @deco
-        async def func(c):
+        async def body(c, kw):
+            # keyword names a wrapper might use for itself must reach the function untouched
+            if kw != {"func": "f", "self": "s", "args": "a", "kwds": "k"}:
+                s.errors.append(("keyword-arguments-lost", c, kw))
             await Suspend(s.acct, ("body", c))
             if s.plan.get(c) == "raise":
                 s.body_exc[c] = BodyError()
                 raise s.body_exc[c]
             return ("value", c)
+
+        if genbased == suppress:
+            @deco
+            async def func(c, **kw):
+                return await body(c, kw)
+        else:
+            # a plain function returning the awaitable: what it does when *called* is part of the call as
+            # well, and has to happen inside the context
+            @deco
+            def func(c, **kw):
+                if s.en.get(c, 0) != 1 or s.ex.get(c, 0) != 0:
+                    s.errors.append(("function-called-outside-its-context", c, {"entered": s.en.get(c, 0), "exited": s.ex.get(c, 0)}))
+                return body(c, kw)
 
         self.func = func
 
@@ -140,7 +155,7 @@ class DecoSys:
     def apply(self, a, c, arg):
         self.current = c
         if a == "start":
-            t = Task(self.func(c), self.acct)
+            t = Task(self.func(c, func="f", self="s", args="a", kwds="k"), self.acct)
             self.task[c] = t
             self._after(c, t.step())
         elif a == "entered":
@@ -230,7 +245,8 @@ def replay_path(args):
             n += 1
     out = []
     if s.errors:
-        out.append(("C15/decorator/calls-interfere", {"engine": "decorator", "path": [x["a"] for x in path], "observed": s.errors}))
+        kind = s.errors[0][0] if s.errors[0][0] in ("function-called-outside-its-context", "keyword-arguments-lost") else "calls-interfere"
+        out.append((f"C15/decorator/{kind}", {"engine": "decorator", "path": [x["a"] for x in path], "observed": s.errors}))
     if not s.acct.ok():
         out.append(("C15/decorator/foreign-suspension", {"engine": "decorator", "path": [x["a"] for x in path]}))
     return out
